@@ -55,3 +55,31 @@ async fn starttls_unsolicited_message_then_close() {
         Ok(Err(_)) => (),
     }
 }
+
+// the same, with the peer closing before the StartTLS request has even been taken from the request channel by the one-operation
+// driver (a race between the spawned driver task and the caller's extended(): needs a multi-thread runtime; about half of the
+// attempts hung before the follow-up fix)
+#[tokio::test(flavor = "multi_thread", worker_threads = 4)]
+async fn starttls_peer_closes_right_after_accept() {
+    let mut hung = 0;
+    for _ in 0..100 {
+        let l = tokio::net::TcpListener::bind("127.0.0.1:0").await.unwrap();
+        let port = l.local_addr().unwrap().port();
+        tokio::spawn(async move {
+            let (s, _) = l.accept().await.unwrap();
+            drop(s);
+        });
+        let settings = ldap3::LdapConnSettings::new().set_starttls(true);
+        let r = tokio::time::timeout(
+            Duration::from_secs(1),
+            ldap3::LdapConnAsync::with_settings(settings, &format!("ldap://127.0.0.1:{}", port)),
+        )
+        .await;
+        match r {
+            Err(_) => hung += 1,
+            Ok(Ok(_)) => panic!("connection established without TLS"),
+            Ok(Err(_)) => (),
+        }
+    }
+    assert_eq!(hung, 0, "connection establishment hung in {} of 100 attempts", hung);
+}
